@@ -522,7 +522,8 @@ class Engine:
                     for (r, q) in list(st.store):
                         if r[0] == 'P':
                             st.store[(r, q)] = ('phiheap', bb, hv, (r, q))
-                st.events.append({'kind': 'loop-enter', 'header': bb, 'frame': frame, 'before': before, 'fn': body['path'], 'hv': hv})
+                live = {r[2]: v for (r, q), v in st.store.items() if r[0] == 'L' and r[1] == frame and not q}
+                st.events.append({'kind': 'loop-enter', 'header': bb, 'frame': frame, 'before': before, 'fn': body['path'], 'hv': hv, 'live': live})
             blk = blocks[bb]
             for s in blk['s']:
                 if s[0] == '=':
